@@ -170,6 +170,11 @@ func (b *schemaBuilder) schemaForArray(typ reflect.Type) (Schema, error) {
 }
 
 func (b *schemaBuilder) schemaForMap(typ reflect.Type) (Schema, error) {
+	// Avro map keys are strings, and the map codec only supports string keys.
+	if typ.Key().Kind() != reflect.String {
+		return Schema{}, fmt.Errorf("map with key type %s not supported: avro map keys must be strings", typ.Key())
+	}
+
 	s, err := b.schemaForType(typ.Elem())
 	if err != nil {
 		return Schema{}, err
